@@ -271,25 +271,16 @@
                                   (string-cursor-end str)))))
     (if (and (eq? grammar 'strict-infix) (string-cursor>=? start end))
         (error "string-split 'strict-infix called on an empty string"))
-    (let lp ((sc start) (found? #f) (i 1) (res '()))
+    (let lp ((sc start) (found? #f) (i 0) (res '()))
       (cond
        ((string-cursor>=? sc end)
         (if (and found? (not (eq? 'suffix grammar)))
             (reverse (cons "" res))
             (reverse res)))
-       ((string-contains str delim sc end)
+       ((and (< i limit) (string-contains str delim sc end))
         => (lambda (sc2)
              (let ((sc3 (string-cursor-forward str sc2 delim-len)))
                (cond
-                ((>= i limit)
-                 (let* ((res (if (equal? "" delim)
-                                 res
-                                 (cons (substring-cursor str sc sc2) res)))
-                        (res (if (and (string-cursor=? sc3 end)
-                                      (eq? 'suffix grammar))
-                                 res
-                                 (cons (substring-cursor str sc3 end) res))))
-                   (lp end #f i res)))
                 ((equal? "" delim)
                  (lp (string-cursor-forward str sc2 1)
                      #f
